@@ -49,8 +49,8 @@ EDITS = {
    "    if x_num == 0 and y_num == 0:\n        return error.DIV_ZERO\n",
    "    if x_num == 0:\n        if y_num == 0:\n            return error.DIV_ZERO\n"),
  'r14_from_message_local': ('C01', 'hotxlfp/formulas/error.py',
-   "    return errdict.get(str(message), ERROR)\n",
-   "    key = str(message)\n    if key in errdict:\n        return errdict[key]\n    return ERROR\n"),
+   "    return errdict.get(text, ERROR)\n",
+   "    if text in errdict:\n        return errdict[text]\n    return ERROR\n"),
  'r15_parse_extract_method': ('C02', 'hotxlfp/parser.py',
    "        except Exception as e:\n            if self.debug:\n                traceback.print_exc()\n            error = str(formulaserror.from_message(e))\n\n        if isinstance(result, formulaserror.XLError):",
    "        except Exception as e:\n            error = self._error_text(e)\n\n        if isinstance(result, formulaserror.XLError):"),
